@@ -513,11 +513,29 @@ def event_tables(ctx, P, views):
                         produced.add(t.slice.value)
                     if unparse(t) == "self.next_event_type" and isinstance(x.value, ast.Constant) and isinstance(x.value.value, str):
                         produced.add(x.value.value)
+        # ... or through a newly extracted helper that takes the event type as a parameter: the constant each caller passes
+        for m in view.methods():
+            if m in rules.ANCHOR_METHODS:
+                continue
+            hcls, hfn = view.resolve(m)
+            hps = [a.arg for a in hfn.args.args][1:]
+            keyp = [unparse(x.targets[0].slice) for x in ast.walk(hfn) if isinstance(x, ast.Assign) and isinstance(x.targets[0], ast.Subscript)
+                    and unparse(x.targets[0].value) == "self.possible_next_events" and isinstance(x.targets[0].slice, ast.Name) and x.targets[0].slice.id in hps]
+            for kp in keyp:
+                for m2 in view.methods():
+                    for c_ in ast.walk(view.resolve(m2)[1]):
+                        if isinstance(c_, ast.Call) and isinstance(c_.func, ast.Attribute) and unparse(c_.func.value) == "self" and c_.func.attr == m:
+                            arg = c_.args[hps.index(kp)] if hps.index(kp) < len(c_.args) else next((k.value for k in c_.keywords if k.arg == kp), None)
+                            if isinstance(arg, ast.Constant) and isinstance(arg.value, str):
+                                produced.add(arg.value)
         cls, fn = view.method("decide_next_event")
         ranked = set()
         for x in ast.walk(fn):
-            if isinstance(x, ast.For) and isinstance(x.iter, (ast.List, ast.Tuple)):
-                ranked |= {el.value for el in x.iter.elts if isinstance(el, ast.Constant)}
+            it_ = x.iter if isinstance(x, (ast.For, ast.comprehension)) else None
+            if isinstance(it_, (ast.List, ast.Tuple)):
+                ranked |= {el.value for el in it_.elts if isinstance(el, ast.Constant)}
+            elif isinstance(it_, ast.Dict):
+                ranked |= {k.value for k in it_.keys if isinstance(k, ast.Constant)}
         cls2, fn2 = view.method("have_event")
         want = {"end_service": "finish_service", "shift_change": "change_shift", "renege": "renege", "class_change": "change_customer_class_while_waiting", "slotted_service": "slotted_service"}
         consts = {x.value for x in ast.walk(fn2) if isinstance(x, ast.Constant) and isinstance(x.value, str)}
